@@ -75,7 +75,7 @@ Proof. induction l as [|a r IH]; cbn; [lia|]. destruct (isdir e a); cbn; lia. Qe
 
 Ltac inv H := inversion H; subst; clear H.
 
-Lemma exec_n e k v c rest c' n : exec e k v c rest = Ok (Good (c', n)) -> (n <= length rest)%nat.
+Lemma exec_n e pos k v c rest c' n : exec e pos k v c rest = Ok (Good (c', n)) -> (n <= length rest)%nat.
 Proof.
   destruct k; cbn; intro H.
   - inv H. lia.
@@ -104,19 +104,24 @@ Proof.
   - inv H. lia.
   - destruct (next_string v rest) as [[s m]|] eqn:E; [|discriminate].
     destruct (parse_keymap (kmap c) s) as [[m'|x]|]; inv H. eapply next_string_n; eauto.
+  - destruct v as [x|].
+    + destruct (parse_tmux x); inv H. lia.
+    + destruct rest as [|a r]; [inv H; lia|].
+      destruct (starts_with DASH a || starts_with PLUS a); [inv H; lia|].
+      destruct (parse_tmux a); inv H. cbn; lia.
 Qed.
 
-Lemma step_good e c a rest c' n :
-  step e c a rest = Ok (Good (c', n)) ->
-  exists k v, resolve a = Some (k, v) /\ exec e k v c rest = Ok (Good (c', n)).
+Lemma step_good e pos c a rest c' n :
+  step e pos c a rest = Ok (Good (c', n)) ->
+  exists k v, resolve a = Some (k, v) /\ exec e pos k v c rest = Ok (Good (c', n)).
 Proof.
   unfold step. destruct (resolve a) as [[k v]|]; [|discriminate].
-  destruct (exec e k v c rest) as [[[c2 m]|x]|] eqn:E; cbn; try discriminate.
+  destruct (exec e pos k v c rest) as [[[c2 m]|x]|] eqn:E; cbn; try discriminate.
   intro H. exists k, v. split; [reflexivity|].
   destruct (consumes_val k); [inv H; exact E|]. destruct v; [discriminate|]. inv H. exact E.
 Qed.
 
-Lemma step_n e c a rest c' n : step e c a rest = Ok (Good (c', n)) -> (n <= length rest)%nat.
+Lemma step_n e pos c a rest c' n : step e pos c a rest = Ok (Good (c', n)) -> (n <= length rest)%nat.
 Proof. intro H. apply step_good in H as (k & v & _ & H). eapply exec_n; eauto. Qed.
 
 (* an argument that cannot be taken for the (optional) value of the option before it *)
@@ -136,8 +141,8 @@ Proof.
   intro H. apply orb_true_iff in H as [H|H]; apply Z.eqb_eq in H; subst; reflexivity.
 Qed.
 
-Lemma exec_app e k v c rest ys c' n :
-  safe_head e ys -> exec e k v c rest = Ok (Good (c', n)) -> exec e k v c (rest ++ ys) = Ok (Good (c', n)).
+Lemma exec_app e pos k v c rest ys c' n :
+  safe_head e ys -> exec e pos k v c rest = Ok (Good (c', n)) -> exec e pos k v c (rest ++ ys) = Ok (Good (c', n)).
 Proof.
   intros S H.
   assert (NS : forall s m, next_string v rest = Some (s, m) -> next_string v (rest ++ ys) = Some (s, m)).
@@ -155,37 +160,49 @@ Proof.
   - destruct (next_string v rest) as [[s m]|] eqn:E; [|discriminate]. now rewrite (NS _ _ eq_refl).
   - destruct (next_string v rest) as [[s m]|] eqn:E; [|discriminate]. now rewrite (NS _ _ eq_refl).
   - destruct (next_string v rest) as [[s m]|] eqn:E; [|discriminate]. now rewrite (NS _ _ eq_refl).
+  - destruct v as [x|]; [exact H|].
+    destruct rest as [|a r]; [|exact H]. cbn.
+    destruct ys as [|y ys]; [exact H|]. destruct S as [S _]. unfold dash_or_plus in S. now rewrite S.
 Qed.
 
-Lemma step_app e c a rest ys c' n :
-  safe_head e ys -> step e c a rest = Ok (Good (c', n)) -> step e c a (rest ++ ys) = Ok (Good (c', n)).
+Lemma step_app e pos c a rest ys c' n :
+  safe_head e ys -> step e pos c a rest = Ok (Good (c', n)) -> step e pos c a (rest ++ ys) = Ok (Good (c', n)).
 Proof.
   intros S H. pose proof H as H0. apply step_good in H as (k & v & R & X).
-  unfold step in *. rewrite R in *. rewrite (exec_app _ _ _ _ _ _ _ _ S X). rewrite X in H0. exact H0.
+  unfold step in *. rewrite R in *. rewrite (exec_app _ _ _ _ _ _ _ _ _ S X). rewrite X in H0. exact H0.
 Qed.
 
 (* ------------------------------------------------------------------ the loop composes *)
 
-Lemma go_app e ys : safe_head e ys -> forall xs c k c1,
-  (k <= length xs)%nat -> go e c k xs = Ok (Good c1) -> go e c k (xs ++ ys) = go e c1 0 ys.
+Lemma go_app e ys : safe_head e ys -> forall xs c pos k c1,
+  (k <= length xs)%nat -> go e c pos k xs = Ok (Good c1) -> go e c pos k (xs ++ ys) = go e c1 (pos + length xs) 0 ys.
 Proof.
-  intro S. induction xs as [|a r IH]; intros c k c1 Hk H.
-  - cbn in *. assert (k = 0%nat) by lia. subst. inv H. reflexivity.
-  - cbn in *. destruct k as [|k].
-    + destruct (step e c a r) as [[[c2 n]|x]|] eqn:E; cbn in H; try discriminate.
-      rewrite (step_app _ _ _ _ _ _ _ S E). cbn. apply IH; [eapply step_n; eauto|exact H].
-    + apply IH; [lia|exact H].
+  intro S. induction xs as [|a r IH]; intros c pos k c1 Hk H.
+  - cbn in *. assert (k = 0%nat) by lia. subst. inv H. now rewrite Nat.add_0_r.
+  - cbn [app length go] in *. rewrite <- Nat.add_succ_comm. destruct k as [|k].
+    + destruct (step e pos c a r) as [[[c2 n]|x]|] eqn:E; cbn in H; try discriminate.
+      rewrite (step_app _ _ _ _ _ _ _ _ S E). cbn. apply IH; [eapply step_n; eauto|exact H].
+    + apply IH; [cbn in Hk; lia|exact H].
 Qed.
 
 (* ------------------------------------------------------------------ untouched fields *)
 
-Lemma exec_untouched e k v c rest c' n g :
-  exec e k v c rest = Ok (Good (c', n)) -> ~ In g (kind_writes k) -> fv c' g = fv c g.
+Lemma stamp_req_other p pos c g : ~ In g (match p with PHeight => [F_HEIGHTIDX] | _ => [] end) -> fv (stamp_req p pos c) g = fv c g.
+Proof.
+  destruct p; cbn; intro NI; try reflexivity.
+  rewrite fv_setf. destruct (Nat.eqb g F_HEIGHTIDX) eqn:E; [|reflexivity].
+  apply Nat.eqb_eq in E. subst. exfalso. apply NI. now left.
+Qed.
+
+Lemma exec_untouched e pos k v c rest c' n g :
+  exec e pos k v c rest = Ok (Good (c', n)) -> ~ In g (kind_writes k) -> fv c' g = fv c g.
 Proof.
   destruct k; cbn; intros H NI.
   - inv H. now apply setfs_other.
   - destruct (next_string v rest) as [[s m]|]; [|discriminate].
-    destruct (run_parser p s); inv H. apply setfs_other. intro X. apply NI. eapply combine_fst_incl; eauto.
+    destruct (run_parser p s); inv H.
+    rewrite stamp_req_other by (intro X; apply NI; apply in_or_app; now right).
+    apply setfs_other. intro X. apply NI. apply in_or_app. left. eapply combine_fst_incl; eauto.
   - assert (G : forall z, fv (setf f (VI z) c) g = fv c g).
     { intro z. rewrite fv_setf. destruct (Nat.eqb g f) eqn:E; [|reflexivity]. apply Nat.eqb_eq in E. subst. exfalso. apply NI. now left. }
     destruct v as [x|].
@@ -216,23 +233,30 @@ Proof.
   - inv H. reflexivity.
   - destruct (next_string v rest) as [[s m]|]; [|discriminate].
     destruct (parse_keymap (kmap c) s) as [[m'|x]|]; inv H. reflexivity.
+  - assert (G : forall t, fv (setfs (tmux_ws t pos) c) g = fv c g).
+    { intros. apply setfs_other. exact NI. }
+    destruct v as [x|].
+    + destruct (parse_tmux x); inv H. apply G.
+    + destruct rest as [|a r]; [inv H; apply G|].
+      destruct (starts_with DASH a || starts_with PLUS a); [inv H; apply G|].
+      destruct (parse_tmux a); inv H. apply G.
 Qed.
 
-Lemma step_untouched e c a rest c' n g :
-  step e c a rest = Ok (Good (c', n)) -> ~ In g (writes a) -> fv c' g = fv c g.
+Lemma step_untouched e pos c a rest c' n g :
+  step e pos c a rest = Ok (Good (c', n)) -> ~ In g (writes a) -> fv c' g = fv c g.
 Proof.
   intros H NI. apply step_good in H as (k & v & R & X).
   unfold writes in NI. rewrite R in NI. eapply exec_untouched; eauto.
 Qed.
 
-Lemma go_untouched e g : forall zs c k cz,
-  (forall a, In a zs -> ~ In g (writes a)) -> go e c k zs = Ok (Good cz) -> fv cz g = fv c g.
+Lemma go_untouched e g : forall zs c pos k cz,
+  (forall a, In a zs -> ~ In g (writes a)) -> go e c pos k zs = Ok (Good cz) -> fv cz g = fv c g.
 Proof.
-  induction zs as [|a r IH]; intros c k cz NI H; cbn in H.
+  induction zs as [|a r IH]; intros c pos k cz NI H; cbn in H.
   - inv H. reflexivity.
   - destruct k as [|k].
-    + destruct (step e c a r) as [[[c2 n]|x]|] eqn:E; cbn in H; try discriminate.
-      rewrite (IH _ _ _ (fun b Hb => NI b (or_intror Hb)) H).
+    + destruct (step e pos c a r) as [[[c2 n]|x]|] eqn:E; cbn in H; try discriminate.
+      rewrite (IH _ _ _ _ (fun b Hb => NI b (or_intror Hb)) H).
       eapply step_untouched; eauto. apply NI. now left.
     + eapply IH; eauto. intros b Hb. apply NI. now right.
 Qed.
@@ -255,21 +279,39 @@ Proof.
   - now rewrite H.
 Qed.
 
-Theorem last_wins_proof : forall e c xs name fs p v vals zs c1 cz,
+(* the position stamp of --height is kept apart from the fields its value decides *)
+Definition req_no_stamp (k : okind) : bool :=
+  match k with KReq fs _ => negb (existsb (Nat.eqb F_HEIGHTIDX) fs) | _ => true end.
+Transparent opt_table.
+Lemma table_req_no_stamp : forallb (fun e => req_no_stamp (snd e)) opt_table = true.
+Proof. vm_compute. reflexivity. Qed.
+Opaque opt_table.
+
+Lemma req_fields_not_stamp name fs p f : assoc_str name opt_table = Some (KReq fs p) -> In f fs -> f <> F_HEIGHTIDX.
+Proof.
+  intros H Hf ->. apply assoc_in in H.
+  pose proof table_req_no_stamp as T. rewrite forallb_forall in T. specialize (T _ H). cbn in T.
+  apply negb_true_iff in T. rewrite <- not_true_iff_false in T. apply T.
+  apply existsb_exists. exists F_HEIGHTIDX. split; [exact Hf|reflexivity].
+Qed.
+
+Theorem last_wins_proof : forall e c p0 xs name fs p v vals zs c1 cz,
   assoc_str name opt_table = Some (KReq fs p) ->
   run_parser p v = Some vals ->
-  go e c 0 xs = Ok (Good c1) ->
+  go e c p0 0 xs = Ok (Good c1) ->
   isdir e name = false ->
   (forall a f, In a zs -> In f fs -> ~ In f (writes a)) ->
-  go e c 0 (xs ++ name :: v :: zs) = Ok (Good cz) ->
+  go e c p0 0 (xs ++ name :: v :: zs) = Ok (Good cz) ->
   forall f, In f fs -> fv cz f = fv (setfs (combine fs vals) c1) f.
 Proof.
-  intros e c xs name fs p v vals zs c1 cz HT HP HX HD HZ HG f Hf.
+  intros e c p0 xs name fs p v vals zs c1 cz HT HP HX HD HZ HG f Hf.
   assert (S : safe_head e (name :: v :: zs)) by (cbn; split; [eapply table_key_dash; eauto|exact HD]).
-  rewrite (go_app e _ S xs c 0%nat c1 ltac:(lia) HX) in HG.
+  rewrite (go_app e _ S xs c p0 0%nat c1 ltac:(lia) HX) in HG.
   cbn [go] in HG. unfold step in HG. rewrite (resolve_table _ _ HT) in HG.
   cbn in HG. rewrite HP in HG. cbn in HG.
-  eapply go_untouched; [|exact HG]. intros a Ha. exact (HZ a f Ha Hf).
+  erewrite go_untouched; [|intros a Ha; exact (HZ a f Ha Hf)|exact HG].
+  apply stamp_req_other. pose proof (req_fields_not_stamp _ _ _ _ HT Hf) as NE.
+  destruct p; cbn; try tauto. intros [X|[]]. now apply NE.
 Qed.
 
 (* ------------------------------------------------------------------ layering *)
@@ -310,15 +352,18 @@ Qed.
 Lemma history_set_agree c c' : agree c c' -> history_set c = history_set c'.
 Proof. intros (A & _). unfold history_set. now rewrite (A F_HISTORY eq_refl). Qed.
 
-Lemma exec_sim e k v c c' rest c1 n :
-  agree c c' -> exec e k v c rest = Ok (Good (c1, n)) ->
-  exists c1', exec e k v c' rest = Ok (Good (c1', n)) /\ agree c1 c1'.
+Lemma agree_stamp_req p pos c c' : agree c c' -> agree (stamp_req p pos c) (stamp_req p pos c').
+Proof. intro H. destruct p; cbn; try exact H. apply agree_setf; auto. Qed.
+
+Lemma exec_sim e pos k v c c' rest c1 n :
+  agree c c' -> exec e pos k v c rest = Ok (Good (c1, n)) ->
+  exists c1', exec e pos k v c' rest = Ok (Good (c1', n)) /\ agree c1 c1'.
 Proof.
   intros AG H. pose proof AG as (A & B & C).
   destruct k; cbn in *.
   - inv H. eexists; split; [reflexivity|]. now apply agree_setfs.
   - destruct (next_string v rest) as [[s m]|]; [|discriminate].
-    destruct (run_parser p s); inv H. eexists; split; [reflexivity|]. now apply agree_setfs.
+    destruct (run_parser p s); inv H. eexists; split; [reflexivity|]. apply agree_stamp_req. now apply agree_setfs.
   - destruct v as [x|].
     + destruct (atoi x); inv H. eexists; split; [reflexivity|]. apply agree_setf; auto.
     + destruct rest as [|a r]; [inv H; eexists; split; [reflexivity|]; apply agree_setf; auto|].
@@ -346,27 +391,32 @@ Proof.
   - destruct (next_string v rest) as [[s m]|]; [|discriminate]. rewrite <- B.
     destruct (parse_keymap (kmap c) s) as [[m'|x]|]; inv H. eexists; split; [reflexivity|].
     repeat split; cbn; auto.
+  - destruct v as [x|].
+    + destruct (parse_tmux x); inv H. eexists; split; [reflexivity|]. now apply agree_setfs.
+    + destruct rest as [|a r]; [inv H; eexists; split; [reflexivity|]; now apply agree_setfs|].
+      destruct (starts_with DASH a || starts_with PLUS a); [inv H; eexists; split; [reflexivity|]; now apply agree_setfs|].
+      destruct (parse_tmux a); inv H. eexists; split; [reflexivity|]. now apply agree_setfs.
 Qed.
 
-Lemma step_sim e c c' a rest c1 n :
-  agree c c' -> step e c a rest = Ok (Good (c1, n)) ->
-  exists c1', step e c' a rest = Ok (Good (c1', n)) /\ agree c1 c1'.
+Lemma step_sim e pos c c' a rest c1 n :
+  agree c c' -> step e pos c a rest = Ok (Good (c1, n)) ->
+  exists c1', step e pos c' a rest = Ok (Good (c1', n)) /\ agree c1 c1'.
 Proof.
   intros AG H. pose proof H as H0. apply step_good in H as (k & v & R & X).
-  destruct (exec_sim _ _ _ _ _ _ _ _ AG X) as (c1' & X' & AG').
+  destruct (exec_sim _ _ _ _ _ _ _ _ _ AG X) as (c1' & X' & AG').
   exists c1'. split; [|exact AG'].
   unfold step in *. rewrite R in *. rewrite X'. rewrite X in H0. cbn in *.
   destruct (consumes_val k); [reflexivity|]. destruct v; [discriminate|reflexivity].
 Qed.
 
-Lemma go_sim e : forall args c c' k c1,
-  agree c c' -> go e c k args = Ok (Good c1) -> exists c1', go e c' k args = Ok (Good c1') /\ agree c1 c1'.
+Lemma go_sim e : forall args c c' pos k c1,
+  agree c c' -> go e c pos k args = Ok (Good c1) -> exists c1', go e c' pos k args = Ok (Good c1') /\ agree c1 c1'.
 Proof.
-  induction args as [|a r IH]; intros c c' k c1 AG H; cbn in *.
+  induction args as [|a r IH]; intros c c' pos k c1 AG H; cbn in *.
   - inv H. eauto.
   - destruct k as [|k]; [|eauto].
-    destruct (step e c a r) as [[[c2 n]|x]|] eqn:E; cbn in H; try discriminate.
-    destruct (step_sim _ _ _ _ _ _ _ AG E) as (c2' & E' & AG2). rewrite E'. cbn. eauto.
+    destruct (step e pos c a r) as [[[c2 n]|x]|] eqn:E; cbn in H; try discriminate.
+    destruct (step_sim _ _ _ _ _ _ _ _ AG E) as (c2' & E' & AG2). rewrite E'. cbn. eauto.
 Qed.
 
 Lemma end_validate_sim c c' : agree c c' -> end_validate c = Good c -> end_validate c' = Good c'.
@@ -393,9 +443,6 @@ Proof. intros (A & B & C). repeat split; auto. intros f Hf. symmetry. auto. Qed.
 Lemma agree_trans c1 c2 c3 : agree c1 c2 -> agree c2 c3 -> agree c1 c3.
 Proof. intros (A & B & C) (A' & B' & C'). repeat split; try congruence. intros f Hf. rewrite A by exact Hf. auto. Qed.
 
-Lemma go_len e : forall args c k c1, go e c k args = Ok (Good c1) -> True.
-Proof. trivial. Qed.
-
 Lemma safe_head_concat e ls : Forall (safe_head e) ls -> safe_head e (concat ls).
 Proof.
   induction 1 as [|l r Hl _ IH]; cbn; [exact I|].
@@ -404,22 +451,22 @@ Qed.
 
 (* all layers succeed one after the other  ==>  the single concatenated vector succeeds
    (from any state that agrees) and ends in a configuration that agrees *)
-Lemma layers_as_one e : forall ls c c' cf,
-  Forall (safe_head e) ls -> agree c c' -> parse_layers e c ls = Ok (Good cf) ->
-  exists cf', go e c' 0 (concat ls) = Ok (Good cf') /\ agree cf cf'
+Lemma layers_as_one e : forall ls start c c' cf,
+  Forall (safe_head e) ls -> agree c c' -> parse_layers e start c ls = Ok (Good cf) ->
+  exists cf', go e c' start 0 (concat ls) = Ok (Good cf') /\ agree cf cf'
               /\ (ls <> [] -> end_validate cf' = Good cf').
 Proof.
-  induction ls as [|l r IH]; intros c c' cf SH AG H.
+  induction ls as [|l r IH]; intros start c c' cf SH AG H.
   - cbn in *. inv H. exists c'. split; [reflexivity|split; [exact AG|congruence]].
   - cbn [parse_layers] in H. unfold parse_layer in H.
-    destruct (go e (layer_init c) 0 l) as [[c2|x]|] eqn:G; cbn in H; try discriminate.
+    destruct (go e (layer_init c) start 0 l) as [[c2|x]|] eqn:G; cbn in H; try discriminate.
     destruct (end_validate c2) as [c2v|x] eqn:EV; cbn in H; try discriminate.
     pose proof (end_validate_id _ _ EV) as ->.
     inversion SH as [|? ? Hl Hr]; subst.
-    destruct (go_sim e l _ c' _ _ (agree_layer_init_l _ _ AG) G) as (c2' & G' & AG2).
-    destruct (IH c2 c2' cf Hr AG2 H) as (cf' & GR & AGF & EVF).
+    destruct (go_sim e l _ c' _ _ _ (agree_layer_init_l _ _ AG) G) as (c2' & G' & AG2).
+    destruct (IH (start + length l)%nat c2 c2' cf Hr AG2 H) as (cf' & GR & AGF & EVF).
     exists cf'. split; [|split; [exact AGF|]].
-    + cbn [concat]. rewrite (go_app e _ (safe_head_concat _ _ Hr) l c' 0%nat c2' ltac:(lia) G'). exact GR.
+    + cbn [concat]. rewrite (go_app e _ (safe_head_concat _ _ Hr) l c' start 0%nat c2' ltac:(lia) G'). exact GR.
     + intros _. destruct r as [|l2 r2].
       * cbn in H, GR. inv H. inv GR. eapply end_validate_sim; eauto.
       * apply EVF. discriminate.
@@ -445,13 +492,13 @@ Theorem layering_proof : forall e file envw argv cfg,
   exists cfg', parse_all e [] [] (file ++ envw ++ argv) = Ok (Good cfg') /\ agree cfg cfg'.
 Proof.
   intros e file envw argv cfg SH H. unfold parse_all in *.
-  destruct (parse_layers e default_cfg (filter nonemptyb [file; envw] ++ [argv])) as [[c|x]|] eqn:P; cbn in H; try discriminate.
+  destruct (parse_layers e 0 default_cfg (filter nonemptyb [file; envw] ++ [argv])) as [[c|x]|] eqn:P; cbn in H; try discriminate.
   inv H.
   assert (SH' : Forall (safe_head e) (filter nonemptyb [file; envw] ++ [argv])).
   { inversion SH as [|? ? S1 SH1]; subst. inversion SH1 as [|? ? S2 SH2]; subst.
     apply Forall_app. split; [|exact SH2].
     cbn. destruct (nonemptyb file), (nonemptyb envw); repeat constructor; auto. }
-  destruct (layers_as_one e _ default_cfg (layer_init default_cfg) c SH' (agree_sym _ _ (agree_layer_init_l _ _ (agree_refl _))) P)
+  destruct (layers_as_one e _ 0%nat default_cfg (layer_init default_cfg) c SH' (agree_sym _ _ (agree_layer_init_l _ _ (agree_refl _))) P)
     as (cf' & G & AG & EV).
   rewrite concat_app, concat_filter_nonempty in G. cbn [concat] in G. rewrite !app_nil_r in G.
   cbn [filter nonemptyb app parse_layers]. unfold parse_layer.
@@ -477,7 +524,7 @@ Opaque opt_table.
 
 (* ------------------------------------------------------------------ totality: a configuration, or exit status 2 *)
 
-Lemma exec_total e k v c rest : exists o, exec e k v c rest = Ok o.
+Lemma exec_total e pos k v c rest : exists o, exec e pos k v c rest = Ok o.
 Proof.
   destruct k; cbn; eauto.
   - destruct (next_string v rest) as [[s m]|]; eauto. destruct (run_parser p s); eauto.
@@ -493,25 +540,28 @@ Proof.
   - destruct (next_string v rest) as [[s m]|]; eauto. destruct (parse_key_chords s); eauto.
   - destruct (next_string v rest) as [[s m]|]; eauto.
     destruct (parse_keymap_total (kmap c) s) as ([m'|x] & ->); cbn; eauto.
+  - destruct v as [x|]; [destruct (parse_tmux x); eauto|].
+    destruct rest as [|a r]; eauto.
+    destruct (starts_with DASH a || starts_with PLUS a); eauto. destruct (parse_tmux a); eauto.
 Qed.
 
-Lemma step_total e c a rest : exists o, step e c a rest = Ok o.
+Lemma step_total e pos c a rest : exists o, step e pos c a rest = Ok o.
 Proof.
   unfold step. destruct (resolve a) as [[k v]|]; eauto.
-  destruct (exec_total e k v c rest) as ([[c' n]|x] & ->); cbn; eauto.
+  destruct (exec_total e pos k v c rest) as ([[c' n]|x] & ->); cbn; eauto.
   destruct (consumes_val k); eauto. destruct v; eauto.
 Qed.
 
-Lemma go_total e : forall args c k, exists o, go e c k args = Ok o.
+Lemma go_total e : forall args c pos k, exists o, go e c pos k args = Ok o.
 Proof.
-  induction args as [|a r IH]; intros c k; cbn; eauto.
-  destruct k; eauto. destruct (step_total e c a r) as ([[c' n]|x] & ->); cbn; eauto.
+  induction args as [|a r IH]; intros c pos k; cbn; eauto.
+  destruct k; eauto. destruct (step_total e pos c a r) as ([[c' n]|x] & ->); cbn; eauto.
 Qed.
 
-Lemma parse_layers_total e : forall ls c, exists o, parse_layers e c ls = Ok o.
+Lemma parse_layers_total e : forall ls start c, exists o, parse_layers e start c ls = Ok o.
 Proof.
-  induction ls as [|l r IH]; intro c; cbn; eauto. unfold parse_layer.
-  destruct (go_total e l (layer_init c) 0%nat) as ([c'|x] & ->); cbn; eauto.
+  induction ls as [|l r IH]; intros start c; cbn; eauto. unfold parse_layer.
+  destruct (go_total e l (layer_init c) start 0%nat) as ([c'|x] & ->); cbn; eauto.
   destruct (end_validate c'); cbn; eauto.
 Qed.
 
@@ -520,5 +570,5 @@ Theorem error_is_exit2_proof : forall e file envw argv,
   (exists code, cli e file envw argv = Ok (ExitWith 2 code)).
 Proof.
   intros. unfold cli, parse_all.
-  destruct (parse_layers_total e (filter nonemptyb [file; envw] ++ [argv]) default_cfg) as ([c|x] & ->); cbn; eauto.
+  destruct (parse_layers_total e (filter nonemptyb [file; envw] ++ [argv]) 0%nat default_cfg) as ([c|x] & ->); cbn; eauto.
 Qed.
